@@ -416,6 +416,14 @@ class Flow:
         if isinstance(b, ast.Name) and b.id in self.aliases: return self.aliases[b.id]
         return None
 
+    def alias_root_any(self, n):
+        """as alias_root, for an expression used as an ARGUMENT: a sub-object of the configuration / task (not the whole object, whose fields are rebound, not mutated, by
+        pydantic models - but conservatively the whole object counts too), a private field bound to one, a local alias"""
+        r = self.alias_root(n)
+        if r is not None: return r
+        if is_self_attr(n) and n.attr in self.field_aliases: return self.field_aliases[n.attr]
+        return None
+
     def note_write(self, root, text):
         (self.cfg_writes if root == "_config" else self.task_writes).append(text[:80])
 
@@ -434,6 +442,32 @@ class Flow:
                     self.quiet = q
                 elif isinstance(f, ast.Name) and f.id in fns and depth < 8:
                     self.block(fns[f.id].body, set(defs), dict(fns), depth + 1)
+                # an object of the caller (configuration / task sub-object) handed to a function that mutates that parameter in place
+                fsrc = unparse(f)
+                if isinstance(f, ast.Name) and f.id in HELPER_MUT:
+                    pn = HELPER_PARAMS[f.id]
+                    for i, a_ in enumerate(n.args):
+                        a_ = a_.value if isinstance(a_, ast.Starred) else a_
+                        if i in HELPER_MUT[f.id] and isinstance(a_, (ast.Attribute, ast.Subscript, ast.Name)) and self.alias_root_any(a_) is not None:
+                            self.note_write(self.alias_root_any(a_), unparse(n))
+                    for k_ in n.keywords:
+                        if k_.arg in pn and pn.index(k_.arg) in HELPER_MUT[f.id] and self.alias_root_any(k_.value) is not None:
+                            self.note_write(self.alias_root_any(k_.value), unparse(n))
+                if fsrc in INPLACE_FUNCS:
+                    i_ = INPLACE_FUNCS[fsrc]
+                    if i_ is not None and len(n.args) > i_ and self.alias_root_any(n.args[i_]) is not None: self.note_write(self.alias_root_any(n.args[i_]), unparse(n))
+                    for k_ in n.keywords:
+                        if k_.arg == "out" and self.alias_root_any(k_.value) is not None: self.note_write(self.alias_root_any(k_.value), unparse(n))
+                # a local function / own method called with such an object: its parameter aliases it while the body is walked
+                callee = self.methods.get(f.attr) if is_self_attr(f) and f.attr in self.methods else (fns.get(f.id) if isinstance(f, ast.Name) else None)
+                if callee is not None and depth < 8:
+                    names_ = [a.arg for a in callee.args.posonlyargs + callee.args.args if a.arg != "self"]
+                    for i, a_ in enumerate(n.args):
+                        if i < len(names_) and isinstance(a_, (ast.Attribute, ast.Subscript, ast.Name)) and self.alias_root_any(a_) is not None:
+                            self.aliases[names_[i]] = self.alias_root_any(a_)
+                    for k_ in n.keywords:
+                        if k_.arg in names_ and isinstance(k_.value, (ast.Attribute, ast.Subscript, ast.Name)) and self.alias_root_any(k_.value) is not None:
+                            self.aliases[k_.arg] = self.alias_root_any(k_.value)
                 if isinstance(f, ast.Attribute) and f.attr in MUTATORS:
                     a = self_root(f.value)
                     if a is not None:
@@ -628,6 +662,71 @@ def helper_entropy(repo: Path) -> dict:
     return direct
 
 
+INPLACE_FUNCS = {"np.random.shuffle": 0, "random.shuffle": 0, "np.put": 0, "np.place": 0, "np.copyto": 0, "np.fill_diagonal": 0, "np.putmask": 0,
+                 "heapq.heapify": 0, "heapq.heappush": 0, "heapq.heappop": 0, "np.clip": None, "np.sort": None}     # None: only via out=
+
+
+def param_mutations(repo: Path) -> dict:
+    """for every module-level function of helpers.py (the functions optimizers call with their own objects): the positions of the parameters the function
+    (transitively) mutates in place - a mutating method call, an element / slice store or delete, an augmented assignment, an in-place numpy / heapq function,
+    directly or through a local name bound to the parameter"""
+    tree = ast.parse((repo / "pyvolutionary" / "helpers.py").read_text())
+    fns = {n.name: n for n in tree.body if isinstance(n, ast.FunctionDef)}
+    params = {name: [a.arg for a in fn.args.posonlyargs + fn.args.args] for name, fn in fns.items()}
+    mut = {name: set() for name in fns}
+
+    def roots(fn, pnames):
+        """local name -> parameter it is (a sub-object of), flow-insensitively"""
+        al = {p: p for p in pnames}
+        for _ in range(3):
+            for n in ast.walk(fn):
+                if isinstance(n, ast.Assign) and isinstance(n.value, (ast.Name, ast.Attribute, ast.Subscript)):
+                    b = n.value
+                    while isinstance(b, (ast.Attribute, ast.Subscript)): b = b.value
+                    if isinstance(b, ast.Name) and b.id in al:
+                        for t in n.targets:
+                            if isinstance(t, ast.Name) and t.id not in pnames: al[t.id] = al[b.id]
+        return al
+
+    def base_name(e):
+        while isinstance(e, (ast.Attribute, ast.Subscript)): e = e.value
+        return e.id if isinstance(e, ast.Name) else None
+
+    changed = True
+    while changed:
+        changed = False
+        for name, fn in fns.items():
+            al = roots(fn, params[name])
+            hit = set()
+            for n in ast.walk(fn):
+                if isinstance(n, ast.Call):
+                    f = n.func
+                    if isinstance(f, ast.Attribute) and f.attr in MUTATORS and base_name(f.value) in al: hit.add(al[base_name(f.value)])
+                    src = unparse(f)
+                    if src in INPLACE_FUNCS and INPLACE_FUNCS[src] is not None and len(n.args) > INPLACE_FUNCS[src] and base_name(n.args[INPLACE_FUNCS[src]]) in al:
+                        hit.add(al[base_name(n.args[INPLACE_FUNCS[src]])])
+                    for k in n.keywords:
+                        if k.arg == "out" and base_name(k.value) in al: hit.add(al[base_name(k.value)])
+                    if isinstance(f, ast.Name) and f.id in fns:
+                        for i, a in enumerate(n.args):
+                            if i < len(params[f.id]) and params[f.id][i] in mut[f.id] and base_name(a) in al: hit.add(al[base_name(a)])
+                        for k in n.keywords:
+                            if k.arg in mut[f.id] and base_name(k.value) in al: hit.add(al[base_name(k.value)])
+                elif isinstance(n, (ast.Assign, ast.AugAssign, ast.Delete)):
+                    ts = n.targets if isinstance(n, (ast.Assign, ast.Delete)) else [n.target]
+                    for t in ts:
+                        for tt in flat_targets(t):
+                            if isinstance(tt, (ast.Subscript, ast.Attribute)) and base_name(tt) in al: hit.add(al[base_name(tt)])
+                            if isinstance(n, ast.AugAssign) and isinstance(tt, ast.Name) and tt.id in al: hit.add(al[tt.id])
+            if not hit <= mut[name]:
+                mut[name] |= hit; changed = True
+    return {name: sorted(params[name].index(p) for p in ps if p in params[name]) for name, ps in mut.items()}, params
+
+
+HELPER_MUT: dict = {}
+HELPER_PARAMS: dict = {}
+
+
 # ----------------------------------------------------------------------------------------------- assembly
 def fingerprint(cls: ast.ClassDef) -> str:
     """normalised text of every population-affecting statement (for hand size models of irregular optimizers)"""
@@ -656,6 +755,8 @@ def src_fingerprint(pkg: Path) -> str:
 def analyse(repo: Path) -> tuple[list[dict], list[str]]:
     found, missing = discover(repo)
     he = helper_entropy(repo)
+    hm, hp = param_mutations(repo)
+    HELPER_MUT.clear(); HELPER_MUT.update({k: v for k, v in hm.items() if v}); HELPER_PARAMS.clear(); HELPER_PARAMS.update(hp)
     base = ast.parse((repo / "pyvolutionary" / "abstract.py").read_text())
     BASE_METHODS.clear()
     base_cls = None
